@@ -195,6 +195,7 @@ class WSStream:
 
         self.connection: Connection
         self.handshake: Handshake
+        self.remote_close_code: Optional[int] = None
 
     @property
     def idle(self) -> bool:
@@ -246,6 +247,8 @@ class WSStream:
             if self.app_put is not None:
                 if self.state in {ASGIWebsocketState.HTTPCLOSED, ASGIWebsocketState.CLOSED}:
                     code = CloseReason.NORMAL_CLOSURE.value
+                elif self.remote_close_code is not None:
+                    code = self.remote_close_code
                 else:
                     code = CloseReason.ABNORMAL_CLOSURE.value
                 await self.app_put({"type": "websocket.disconnect", "code": code})
@@ -325,6 +328,7 @@ class WSStream:
                 await self._send_wsproto_event(event.response())
             elif isinstance(event, CloseConnection):
                 if self.connection.state == ConnectionState.REMOTE_CLOSING:
+                    self.remote_close_code = int(event.code)
                     await self._send_wsproto_event(event.response())
                 await self.send(StreamClosed(stream_id=self.stream_id))
 
